@@ -313,12 +313,15 @@ Definition sev_step (thr now : Z) (latest : option Z) (pr : option gpath)
       end
   end.
 
+(** does the notification move the latest accepted timestamp: it has an update
+    and its index list (target first) has a second element other than "meta" *)
 Definition stracks (n : notif) : bool :=
   match n_upd n with
   | u :: _ =>
-      match gp_elems (gp_of_opt (u_path u)) with
-      | e :: _ => negb (String.eqb (fst e) "meta")
-      | [] => false
+      match to_strings true (gp_of_opt (n_prefix n)) ++
+            to_strings false (if n_atomic n then empty_gpath else gp_of_opt (u_path u)) with
+      | _ :: p1 :: _ => negb (String.eqb p1 "meta")
+      | _ => false
       end
   | [] => false
   end.
